@@ -283,16 +283,90 @@ def _key_wire(call, evs):
         call["input"]["a"], call["input"]["e"], call["input"]["chain"])
 
 
-def _c09(prop, tier):
+def _wire_run(prop, tier, part=True):
     binary = C.build_harness()
     nfields = _layout_crosscheck(binary)
-    code, _, _ = smallfam.run(prop, tier, mc_module="QuoteWire_MC", mc_cfg=_wire_cfg(tier), driver="wire", trace_module="QuoteWire_Trace",
+    return smallfam.run(prop, tier, part=part, mc_module="QuoteWire_MC", mc_cfg=_wire_cfg(tier), driver="wire", trace_module="QuoteWire_Trace",
                               trace_consts=WIRE_TRACE_CONSTS, key_fn=_key_wire, required_actions=("Guard", "Accept"),
                               extra_cov={"layout_fields_crosschecked": nfields},
                               assumptions=["the layout table is an independent transcription of Intel's v4 quote layout (bytes 8-11 of the header follow the repository's naming)",
                                            "field contents are seeded random fillings, pairwise distinct with overwhelming probability",
                                            "gen.Decode is the reference reader for field contents; acceptance is decided by the TLA+ parser machine"])
-    return code
+
+
+def _c09(prop, tier):
+    t0 = _time.time()
+    _, v1, c1 = _wire_run(prop, tier)
+    _, v2, c2 = _msg_run(prop, tier, "C09")
+    return smallfam.combine(prop, tier, [("wire", v1, c1), ("messages", v2, c2)], t0)
 
 
 TABLE["C09"] = dict(run=_c09, replay=lambda p, path: smallfam.replay(p, path, driver="wire", trace_module="QuoteWire_Trace", trace_consts=WIRE_TRACE_CONSTS))
+
+# ------------------------------------------------------------------------------------------
+def _msg_cfg(tier):
+    pw = '{"absent", "rtmrs", "size", "extra", "type", "wide"}' if tier == "thorough" else '{"size", "extra", "rtmrs"}'
+    return "CONSTANTS\n  PairWith = %s\nSPECIFICATION Spec\nINVARIANTS TypeOK SerialIffValid RoundTripImpliesValid ExportCase\nCHECK_DEADLOCK FALSE\n" % pw
+
+
+def _key_msg(call, evs):
+    i = call["input"]
+    return "%s:%s:%s+%s:%s:%s" % (i["d1"]["kind"], i["d1"]["what"], i["d1"]["how"], i["d2"]["kind"], i["d2"]["what"], i["d2"]["how"])
+
+
+def _msg_run(prop, tier, judge, part=True):
+    return smallfam.run(prop, tier, part=part, mc_module="QuoteMsg_MC", mc_cfg=_msg_cfg(tier), driver="msg", trace_module="QuoteMsg_Trace",
+                        trace_consts='  PairWith = {}\n  Prop = "%s"\n' % judge, key_fn=_key_msg, required_actions=("CheckQuote", "Serialise", "ParseBack"),
+                        assumptions=["messages are built field by field from a generated, correctly signed quote and then deviated structurally"])
+
+
+# ------------------------------------------------------------------------------------------
+def _pcsresp_cfg(tier):
+    return "CONSTANTS\n  Pairs = %s\nSPECIFICATION Spec\nINVARIANTS TypeOK ExportCase\nCHECK_DEADLOCK FALSE\n" % ("TRUE" if tier == "thorough" else "FALSE")
+
+
+def _key_resp(call, evs):
+    i = call["input"]
+    return "%s.%s=%s+%s.%s=%s" % (i["d1"]["ep"], i["d1"]["part"], i["d1"]["shape"], i["d2"]["ep"], i["d2"]["part"], i["d2"]["shape"])
+
+
+def _c10(prop, tier):
+    t0 = _time.time()
+    binary = C.build_harness()
+    _layout_crosscheck(binary)
+    nc = dict(trace_module="NoCrash_Trace", trace_consts="", part=True)
+    _, v1, c1 = smallfam.run(prop, tier, mc_module="QuoteWire_MC", mc_cfg=_wire_cfg(tier), driver="wire", key_fn=_key_wire, required_actions=("Guard", "Accept"),
+                             assumptions=["byte strings: every wire case of QuoteWire plus truncation and mutation sweeps, through abi.QuoteToProto, verify.RawTdxQuote, validate.RawTdxQuote"], **nc)
+    _, v2, c2 = _msg_run(prop, tier, "C10")
+    _, v3, c3 = smallfam.run(prop, tier, mc_module="PcsResponse_MC", mc_cfg=_pcsresp_cfg(tier), driver="pcsresp", key_fn=_key_resp, required_actions=("Fetch", "Finish"),
+                             assumptions=["endpoint responses are drawn from the grammar of spec/PcsResponse.tla; altered members are re-signed by the honest signer so that the odd values are used"], **nc)
+    _, v4, c4 = smallfam.run(prop, tier, mc_module="PckExt_MC", mc_cfg=_pckext_cfg(tier), driver="pckext", key_fn=_key_pckext, required_actions=("Outer", "TopElem", "TcbElem", "Finish"),
+                             assumptions=["SGX extension DER: every case of PckExt (wrong types, lengths, trailing bytes, truncation, missing elements)"], **nc)
+    return smallfam.combine(prop, tier, [("bytes", v1, c1), ("messages", v2, c2), ("responses", v3, c3), ("sgx-extension", v4, c4)], t0)
+
+
+def _c10_replay(prop, path):
+    rp = _json.load(open(path))
+    case = rp.get("case") or {}
+    if "f" in case:
+        drv = "wire"
+    elif "top" in case:
+        drv = "pckext"
+    elif "d1" in case and "ep" in case["d1"]:
+        drv = "pcsresp"
+    else:
+        drv = "msg"
+    if drv == "msg":
+        return smallfam.replay(prop, path, driver="msg", trace_module="QuoteMsg_Trace", trace_consts='  PairWith = {}\n  Prop = "C10"\n')
+    return smallfam.replay(prop, path, driver=drv, trace_module="NoCrash_Trace", trace_consts="")
+
+
+def _c09_replay(prop, path):
+    rp = _json.load(open(path))
+    if "f" in (rp.get("case") or {}):
+        return smallfam.replay(prop, path, driver="wire", trace_module="QuoteWire_Trace", trace_consts=WIRE_TRACE_CONSTS)
+    return smallfam.replay(prop, path, driver="msg", trace_module="QuoteMsg_Trace", trace_consts='  PairWith = {}\n  Prop = "C09"\n')
+
+
+TABLE["C09"] = dict(run=_c09, replay=_c09_replay)
+TABLE["C10"] = dict(run=_c10, replay=_c10_replay)
